@@ -14,7 +14,9 @@ static void free_refs(void) { for (size_t i = 0; i < g_nref; i++) bstr_free(g_re
 
 static void pv(void *p) { if (p == NULL) printf("null"); else printf("%lu", (unsigned long) (uintptr_t) p); }
 
+void prim_cleanup_bb(void);
 void prim_cleanup(void) {
+    prim_cleanup_bb();
     if (g_ring) { htp_list_destroy(g_ring); g_ring = NULL; }
     if (g_table) { htp_table_destroy(g_table); g_table = NULL; }
     free_refs();
@@ -112,9 +114,92 @@ int op_table(int n, char **t) {
     return 0;
 }
 
+/* the thin wrappers of bstr.c (bstr/bstr, bstr/C-string and bstr_util_* variants): each is called as such, the model states what it
+ * must equal in terms of the *_mem function it delegates to. C-string arguments are the bytes of <b> up to the first NUL. */
+static int op_bstr_wrapper(int n, char **t) {
+    const char *fn = t[1];
+    if (n == 5 && !strcmp(fn, "dup_ex")) {
+        unsigned char *a; long al = hex_parse(t[2], &a); if (al < 0) return 0;
+        size_t off = strtoul(t[3], NULL, 10), len = strtoul(t[4], NULL, 10);
+        if (off + len > (size_t) al) { free(a); return 0; }
+        bstr *x = bstr_dup_mem(a, al), *r = bstr_dup_ex(x, off, len);
+        hex_print_bstr(stdout, r); bstr_free(r); bstr_free(x); free(a); return 1;
+    }
+    if (n == 3) {
+        unsigned char *a; long al = hex_parse(t[2], &a); if (al < 0) return 0;
+        char *ac = malloc(al + 1); memcpy(ac, a, al); ac[al] = 0;
+        bstr *x = bstr_dup_mem(a, al);
+        int done = 1;
+        if (!strcmp(fn, "dup")) { bstr *r = bstr_dup(x); hex_print_bstr(stdout, r); printf(" %zu %zu", bstr_len(r), bstr_size(r)); bstr_free(r); }
+        else if (!strcmp(fn, "dup_c")) { bstr *r = bstr_dup_c(ac); hex_print_bstr(stdout, r); bstr_free(r); }
+        else if (!strcmp(fn, "dup_lower")) { bstr *r = bstr_dup_lower(x); hex_print_bstr(stdout, r); bstr_free(r); }
+        else if (!strcmp(fn, "memdup_to_c")) { char *r = bstr_util_memdup_to_c(a, al); hex_print(stdout, (unsigned char *) r, strlen(r)); free(r); }
+        else if (!strcmp(fn, "strdup_to_c")) { char *r = bstr_util_strdup_to_c(x); hex_print(stdout, (unsigned char *) r, strlen(r)); free(r); }
+        else if (!strcmp(fn, "wrap_c")) { bstr *r = bstr_wrap_c(ac); hex_print_bstr(stdout, r); printf(" %zu", bstr_len(r)); bstr_free(r); }
+        else if (!strcmp(fn, "wrap_mem")) { bstr *r = bstr_wrap_mem(a, al); hex_print_bstr(stdout, r); printf(" %zu", bstr_len(r));
+                                            bstr *e = bstr_expand(r, al + 8); printf(" %s", e ? "expanded" : "refused"); bstr_free(e ? e : r); }
+        else done = 0;
+        bstr_free(x); free(ac); free(a); return done;
+    }
+    if (n != 4) return 0;
+    unsigned char *a, *b; long al = hex_parse(t[2], &a), bl = hex_parse(t[3], &b);
+    if (al < 0 || bl < 0) return 0;
+    char *bc = malloc(bl + 1); memcpy(bc, b, bl); bc[bl] = 0;
+    bstr *x = bstr_dup_mem(a, al), *y = bstr_dup_mem(b, bl);
+    int done = 1;
+    if (!strcmp(fn, "cmp")) printf("%d", bstr_cmp(x, y));
+    else if (!strcmp(fn, "cmp_nocase")) printf("%d", bstr_cmp_nocase(x, y));
+    else if (!strcmp(fn, "cmp_c")) printf("%d", bstr_cmp_c(x, bc));
+    else if (!strcmp(fn, "cmp_c_nocase")) printf("%d", bstr_cmp_c_nocase(x, bc));
+    else if (!strcmp(fn, "cmp_c_nocasenorzero")) printf("%d", bstr_cmp_c_nocasenorzero(x, bc));
+    else if (!strcmp(fn, "util_cmp_mem")) printf("%d", bstr_util_cmp_mem(a, al, b, bl));
+    else if (!strcmp(fn, "util_cmp_mem_nocase")) printf("%d", bstr_util_cmp_mem_nocase(a, al, b, bl));
+    else if (!strcmp(fn, "begins_with")) printf("%d", bstr_begins_with(x, y));
+    else if (!strcmp(fn, "begins_with_nocase")) printf("%d", bstr_begins_with_nocase(x, y));
+    else if (!strcmp(fn, "begins_with_c")) printf("%d", bstr_begins_with_c(x, bc));
+    else if (!strcmp(fn, "begins_with_c_nocase")) printf("%d", bstr_begins_with_c_nocase(x, bc));
+    else if (!strcmp(fn, "index_of")) printf("%d", bstr_index_of(x, y));
+    else if (!strcmp(fn, "index_of_nocase")) printf("%d", bstr_index_of_nocase(x, y));
+    else if (!strcmp(fn, "index_of_c")) printf("%d", bstr_index_of_c(x, bc));
+    else if (!strcmp(fn, "index_of_c_nocase")) printf("%d", bstr_index_of_c_nocase(x, bc));
+    else if (!strcmp(fn, "index_of_c_nocasenorzero")) printf("%d", bstr_index_of_c_nocasenorzero(x, bc));
+    else if (!strcmp(fn, "util_mem_index_of_c")) printf("%d", bstr_util_mem_index_of_c(a, al, bc));
+    else if (!strcmp(fn, "util_mem_index_of_c_nocase")) printf("%d", bstr_util_mem_index_of_c_nocase(a, al, bc));
+    else if (!strcmp(fn, "util_mem_index_of_mem")) printf("%d", bstr_util_mem_index_of_mem(a, al, b, bl));
+    else if (!strcmp(fn, "util_mem_index_of_mem_nocase")) printf("%d", bstr_util_mem_index_of_mem_nocase(a, al, b, bl));
+    else if (!strcmp(fn, "add")) { bstr *r = bstr_add(x, y); if (r) { x = r; hex_print_bstr(stdout, x); } else printf("error"); }
+    else if (!strcmp(fn, "add_c")) { bstr *r = bstr_add_c(x, bc); if (r) { x = r; hex_print_bstr(stdout, x); } else printf("error"); }
+    else if (!strcmp(fn, "add_noex")) { bstr *d = bstr_alloc(al + 3); bstr_add_mem_noex(d, a, al); bstr_add_noex(d, y); hex_print_bstr(stdout, d); bstr_free(d); }
+    else if (!strcmp(fn, "add_c_noex")) { bstr *d = bstr_alloc(al + 3); bstr_add_mem_noex(d, a, al); bstr_add_c_noex(d, bc); hex_print_bstr(stdout, d); bstr_free(d); }
+    else done = 0;
+    bstr_free(x); bstr_free(y); free(bc); free(a); free(b); return done;
+}
+
+/* the string builder (bstr_builder.c): bstr bb new | append <hex> | append_c <hex> | appendn <hex> | size | clear | tostr */
+static bstr_builder_t *g_bb;
+static int op_bb(int n, char **t) {
+    const char *fn = t[1];
+    if (!strcmp(fn, "new") && n == 2) { if (g_bb) bstr_builder_destroy(g_bb); g_bb = bstr_builder_create(); printf(g_bb ? "ok" : "error"); return 1; }
+    if (!g_bb) return 0;
+    if ((!strcmp(fn, "append") || !strcmp(fn, "append_c") || !strcmp(fn, "appendn")) && n == 3) {
+        unsigned char *a; long al = hex_parse(t[2], &a); if (al < 0) return 0;
+        htp_status_t rc;
+        if (!strcmp(fn, "append")) rc = bstr_builder_append_mem(g_bb, a, al);
+        else if (!strcmp(fn, "append_c")) { char *c = malloc(al + 1); memcpy(c, a, al); c[al] = 0; rc = bstr_builder_append_c(g_bb, c); free(c); }
+        else { bstr *b = bstr_dup_mem(a, al); rc = bstr_builder_appendn(g_bb, b); if (rc != HTP_OK) bstr_free(b); }
+        printf("%d %zu", (int) rc, bstr_builder_size(g_bb)); free(a); return 1;
+    }
+    if (!strcmp(fn, "size") && n == 2) { printf("%zu", bstr_builder_size(g_bb)); return 1; }
+    if (!strcmp(fn, "clear") && n == 2) { bstr_builder_clear(g_bb); printf("%zu", bstr_builder_size(g_bb)); return 1; }
+    if (!strcmp(fn, "tostr") && n == 2) { bstr *r = bstr_builder_to_str(g_bb); hex_print_bstr(stdout, r); if (r) printf(" %zu", bstr_len(r)); bstr_free(r); return 1; }
+    return 0;
+}
+
 int op_bstr(int n, char **t) {
     if (n < 2) return 0;
     const char *fn = t[0];
+    if (!strcmp(fn, "w")) return op_bstr_wrapper(n, t);
+    if (!strcmp(fn, "bb")) return op_bb(n, t);
     if (!strcmp(fn, "add_noex") && n == 4) {
         size_t cap = strtoul(t[1], NULL, 10);
         unsigned char *a, *b; long al = hex_parse(t[2], &a), bl = hex_parse(t[3], &b);
@@ -202,3 +287,5 @@ int op_num(int n, char **t) {
     }
     return 0;
 }
+
+void prim_cleanup_bb(void) { if (g_bb) { bstr_builder_destroy(g_bb); g_bb = NULL; } }
